@@ -10,11 +10,13 @@
 (*   perturb{h, c, site}    one attribute of h was changed: content now c   *)
 (*   write{h, a, members}   h written to archive a; members = <<name, blob>>*)
 (*   load{a, entry, h, c, b} archive a loaded into handle h: content c      *)
+(*   refresh{h, c, b}       refresh() called again on h: nothing may change *)
 (* The specification knows nothing about ODX: it learns Ser (content ->     *)
 (* members) and Beh (content -> behaviour) as the session goes and demands  *)
 (* that they ARE functions and that loading inverts writing (Pdx.tla:       *)
 (* WriteThenLoad, WriteIsStable).                                           *)
 (* Monitors (C11): load_differs, rewrite_differs, behaviour_differs,        *)
+(*                 refresh_changes_database,                                *)
 (*                 perturbation_invisible (machinery: the digest must see   *)
 (*                 the changed attribute)                                   *)
 (***************************************************************************)
@@ -40,6 +42,9 @@ TraceNext ==
          [] ev.ev = "perturb" -> /\ Say(ev, IF Has(content, ev.h) /\ content[ev.h] = ev.c THEN "perturbation_invisible" ELSE "ok")
                                  /\ content' = Put(content, ev.h, ev.c)
                                  /\ UNCHANGED <<ser, beh, arch>>
+         [] ev.ev = "refresh" -> /\ Say(ev, IF content[ev.h] # ev.c \/ (Has(beh, ev.c) /\ beh[ev.c] # ev.b)
+                                           THEN "refresh_changes_database" ELSE "ok")
+                                 /\ UNCHANGED <<content, ser, beh, arch>>
          [] ev.ev = "write" -> /\ LET c == content[ev.h] IN
                                   /\ Say(ev, IF Has(ser, c) /\ ser[c] # ev.members THEN "rewrite_differs" ELSE "ok")
                                   /\ ser' = IF Has(ser, c) THEN ser ELSE Put(ser, c, ev.members)
